@@ -14,3 +14,6 @@ mod chrono_weekday;
 
 #[cfg(kani)]
 mod int_facts;
+
+#[cfg(kani)]
+mod month_facts;
